@@ -173,6 +173,39 @@ func Space(quick bool, yield func(t *regexref.Expr, family string)) (maxFull, ma
 	return maxSize, maxSize + 1
 }
 
+// KeywordSpace yields automata with tens of states: every alternation of 2 to maxSize of 12 keywords that share
+// prefixes and suffixes, and literals of 10 to 24 characters followed by a choice. (The determinise / minimise / prune /
+// renumber chain only has something to get wrong once state numbers have two digits.)
+func KeywordSpace(maxSize int, yield func(t *regexref.Expr, family string)) {
+	words := []string{"true", "while", "end", "not", "nil", "null", "func", "def", "break", "struct", "var", "then"}
+	var cur []string
+	var rec func(from int)
+	rec = func(from int) {
+		if len(cur) >= 2 {
+			p := "(" + strings.Join(cur, "|") + ")"
+			if t, err := regexref.Parse(p); err == nil {
+				yield(t, fmt.Sprintf("keywords%d", len(cur)))
+			}
+		}
+		if len(cur) == maxSize {
+			return
+		}
+		for i := from; i < len(words); i++ {
+			cur = append(cur, words[i])
+			rec(i + 1)
+			cur = cur[:len(cur)-1]
+		}
+	}
+	rec(0)
+	for n := 10; n <= 24; n++ {
+		for _, tail := range []string{"(cb|da)z", "(ab|ba)+", "[a-c]?(x|yz)"} {
+			if t, err := regexref.Parse(strings.Repeat("w", n) + tail); err == nil {
+				yield(t, "long_literals")
+			}
+		}
+	}
+}
+
 // DeepSpace (thorough tiers, run last): deeper trees over smaller pools - every tree with 5 operator nodes over
 // {a, ., b} x {?, *, {2}} (0.39M) and every tree with 5 and 6 operator nodes over {a, b} x {?, *} (0.05M + 0.46M).
 func DeepSpace(yield func(t *regexref.Expr, family string)) {
@@ -258,6 +291,21 @@ func BracketSpace(n int, yield func(a *regexref.Atom)) (groups, ambiguous int) {
 		}
 	})
 	return
+}
+
+// BracketSpaceU is BracketSpace over tokens beyond ASCII: three hexadecimal characters above U+007F in both orders,
+// two around U+007F (so that ranges straddle the end of ASCII), `-`, a plain character and (not first) `^`.
+func BracketSpaceU(n int, yield func(a *regexref.Atom)) {
+	BracketTexts([]string{"a", "-", `\x03B1`, `\x03B2`, `\x00E9`, `\x7E`, `\x0081`}, n, func(text string, res bracketref.Result) {
+		if set, ok := Demanded(text, res); ok {
+			yield(&regexref.Atom{Text: text, Set: set})
+		}
+		if neg := "[^" + text[1:]; true {
+			if set, ok := Demanded(neg, bracketref.Analyse(neg)); ok {
+				yield(&regexref.Atom{Text: neg, Set: set})
+			}
+		}
+	})
 }
 
 // AtomExpr wraps an atom as a whole pattern.
